@@ -261,6 +261,11 @@ func execDist(s distScen, tag string, seed int64) ([]any, error) {
 		switch ans {
 		case "200":
 			rw.WriteHeader(200)
+		case "slow200":
+			mu.Unlock()
+			time.Sleep(120 * time.Millisecond)
+			mu.Lock()
+			rw.WriteHeader(200)
 		case "404":
 			http.Error(rw, "no such log", 404)
 		case "500":
